@@ -1151,6 +1151,9 @@ conn_cleanup = Spec(
         ('owner-notified-exactly-once-and-forgotten', lambda c: z3.And(
             delta(c, 'ghost_owner_lost') == b2i(attached(c, '_owner')), isn(c.newv('_owner')),
             z3.BoolVal(len(c.events('owner_lost')) <= 1))),
+        # (state-only form of the clause above: this one is what callers get through contract_stub)
+        ('owner-told-once-iff-attached-and-forgotten', lambda c: z3.And(
+            delta(c, 'ghost_owner_lost') == b2i(attached(c, '_owner')), isn(c.newv('_owner')))),
         ('nothing-after-the-final-notification', lambda c: z3.BoolVal(
             not any(e[0] in ('chan_closed', 'resolve', 'error_handler', 'auth_cancelled')
                     for e in c.events()[([e[0] for e in c.events()] + ['owner_lost']).index('owner_lost'):]))),
@@ -1279,3 +1282,556 @@ make_global_request = Spec(
             z3.And(z3.BoolVal(len(c.events('await')) == 0),
                    c.new('_global_request_waiters') == c.old('_global_request_waiters'))))],
     raises={'Exception': True, 'CancelledError': True})
+
+
+# ================================================================================================
+# Audit follow-up (notes/audit/C09.md).
+# ---- (1) the cleanup that actually runs: SSHClientConnection._cleanup / SSHServerConnection._cleanup -------
+# _force_close schedules `self._cleanup`, i.e. the override of the concrete class.  Contract of an override, from
+# the property: whatever else it tidies up, the base cleanup (which resolves the waiters, closes the channels and
+# tells the owner - Spec conn_cleanup above) runs exactly once, with the same error, on every path, and is the
+# last thing that happens; the forwarding endpoints owned by the subclass are closed.
+CONN_CLEANUP_MODIFIES = [
+    '_keepalive_timer', '_login_timer', '_channels', '_local_listeners', '_global_request_waiters', '_auth',
+    '_error_handler', '_acceptor', '_wait', '_owner', '_tunnel', '_inpbuf', 'ghost_done', 'ghost_close_event_set',
+    'ghost_listener_closed', 'ghost_owner_lost', 'ghost_auth_cancelled', 'ghost_error_handler_calls',
+    'ghost_tunnel_closed', 'ghost_timers_cancelled']
+conn_cleanup.modifies = CONN_CLEANUP_MODIFIES
+
+
+def base_cleanup_call(cx):
+    """super()._cleanup(exc): by the contract of SSHConnection._cleanup proved above (its requires is an obligation
+    here, its state clauses are assumed); the call is counted"""
+    outs = contract_stub(lambda: conn_cleanup)(cx)
+    for o in outs:
+        o.sets['ghost_base_cleanups'] = bump(cx, 'ghost_base_cleanups')
+        o.event = ('base_cleanup', tuple(cx.args))
+    return outs
+
+
+base_cleanup_call.modifies = tuple(CONN_CLEANUP_MODIFIES) + ('ghost_base_cleanups',)
+base_cleanup_call.spec_getter = lambda: conn_cleanup
+
+
+def endpoint_close_stub(cx):
+    """close() of an agent / agent listener / remote port-forward listener object owned by the subclass"""
+    return [Out(event=('endpoint_closed', (cx.recv,)))]
+
+
+endpoint_close_stub.modifies = ()
+
+
+def remote_listener_close_stub(cx):
+    g = cx.selff('ghost_remote_closed')
+    return [Out(osets=on_self(cx, ghost_remote_closed=VMap(g.dom, z3.Store(g.val, cx.recv.z, True), g.kt, g.vt)),
+                event=('listener_closed', (cx.recv,)))]
+
+
+remote_listener_close_stub.modifies = ('ghost_remote_closed',)
+
+
+def override_post(extra=()):
+    return [
+        ('base-cleanup-exactly-once', lambda c: z3.And(delta(c, 'ghost_base_cleanups') == 1,
+                                                       z3.BoolVal(len(c.events('base_cleanup')) == 1))),
+        ('base-cleanup-gets-the-same-error', lambda c: z3.And(*[
+            c.eq(e[1][0], c.argv('exc')) for e in c.events('base_cleanup')])),
+        ('base-cleanup-comes-last', lambda c: z3.BoolVal(
+            [e[0] for e in c.events() if e[0] in ('base_cleanup', 'endpoint_closed', 'listener_closed')][-1:]
+            == ['base_cleanup'])),
+        # what the base contract gives, seen through the override (state clauses of conn_cleanup)
+        ('no-channel-stays-registered', no_channels),
+        ('every-global-request-waiter-resolved', lambda c: z3.And(
+            forall_idx(c.old('_global_request_waiters'), lambda f, k: done_in(c.newv('ghost_done'), f)),
+            z3.Length(c.new('_global_request_waiters')) == 0)),
+        ('connect-waiter-resolved', lambda c: z3.Implies(
+            awaited(c), when_set(c.oldv('_waiter'), lambda f: done_in(c.newv('ghost_done'), f.z)))),
+        ('owner-notified-exactly-once-and-forgotten', lambda c: z3.And(
+            delta(c, 'ghost_owner_lost') == b2i(attached(c, '_owner')), isn(c.newv('_owner')))),
+        ('close-event-set', lambda c: c.new('ghost_close_event_set')),
+    ] + list(extra)
+
+
+CLIENT_CONN_FIELDS = dict(C9_CONN_FIELDS, **{
+    '_agent': 'opt[obj:Agent]', '_remote_listeners': 'dict[' + LKEY + ',' + LSN + ']',
+    '_dynamic_remote_listeners': 'dict[' + LKEY + ',' + LSN + ']', 'ghost_base_cleanups': 'int',
+    'ghost_remote_closed': 'dict[' + LSN + ',bool]'})
+SERVER_CONN_FIELDS = dict(C9_CONN_FIELDS, **{'_agent_listener': 'opt[obj:Agent]', 'ghost_base_cleanups': 'int'})
+
+
+def conn_classes(name, fields):
+    d = dict(C9_CONN_CLASSES)
+    del d['SSHConnection']
+    d[name] = fields
+    d['Agent'] = {}
+    return d
+
+
+def all_remote_listeners_closed(c):
+    m0 = c.oldv('_remote_listeners')
+    g = c.newv('ghost_remote_closed')
+    k = z3.Const(fresh_name('k'), sort_of(m0.kt))
+    return z3.ForAll([k], z3.Implies(z3.Select(m0.dom, k), z3.Select(g.val, z3.Select(m0.val, k))))
+
+
+def remote_listeners_loop_inv(c):
+    L, i = c.extra['iter'].z, c.extra['i']
+    g = c.newv('ghost_remote_closed')
+    return z3.And(forall_idx(L, lambda x, k: z3.Select(g.val, x), hi=i),
+                  *[c.eq(c.oldv(f), c.newv(f)) for f in ('_global_request_waiters', '_wait', '_waiter', '_owner')],
+                  c.newv('ghost_done').val == c.oldv('ghost_done').val,
+                  c.newv('_channels').dom == c.oldv('_channels').dom,
+                  c.newv('_channels').val == c.oldv('_channels').val,
+                  c.new('ghost_base_cleanups') == c.old('ghost_base_cleanups'))
+
+
+def dict_truthiness(c, f):
+    """definition of bool(d) for the (old) dict field f: d is truthy iff it has a key"""
+    m = c.oldv(f)
+    k = z3.Const(fresh_name('k'), sort_of(m.kt))
+    return [z3.Implies(z3.Not(c.truthy(m, c.old_state)), z3.ForAll([k], z3.Not(z3.Select(m.dom, k))))]
+
+
+def empty_table(c, f):
+    v = c.ex.deref(c.new_state, c.newv(f))
+    if isinstance(v, VDict):            # a dict literal assigned by the code
+        return z3.BoolVal(len(v.items) == 0)
+    k = z3.Const(fresh_name('k'), sort_of(v.kt))
+    return z3.ForAll([k], z3.Not(z3.Select(v.dom, k)))
+
+
+client_conn_cleanup = Spec(
+    PROP, 'connection', 'SSHClientConnection._cleanup', self_class='SSHClientConnection',
+    params=dict(exc='opt[opaque:Exc]'), classes=conn_classes('SSHClientConnection', CLIENT_CONN_FIELDS),
+    stubs={'self._agent.close': endpoint_close_stub,
+           'self._remote_listeners.values': values_stub, 'list': list_of_values_stub,
+           'tcp_listener.close': remote_listener_close_stub,
+           'isinstance': ret('bool', 'is_connection_lost'), 'str': ret('str', 'text'),
+           'super()._cleanup': base_cleanup_call},
+    loops={1: LoopSpec(header='for tcp_listener in list(self._remote_listeners.values())',
+                       invariant=remote_listeners_loop_inv)},
+    requires=conn_cleanup.requires, lemmas=lambda c: dict_truthiness(c, '_remote_listeners'),
+    ensures=override_post([
+        ('every-remote-listener-closed', all_remote_listeners_closed),
+        ('remote-listener-tables-emptied', lambda c: z3.And(
+            empty_table(c, '_remote_listeners'),
+            z3.Or(z3.Not(c.truthy(c.oldv('_remote_listeners'), c.old_state)),
+                  empty_table(c, '_dynamic_remote_listeners')))),
+        ('agent-closed-once-iff-present', lambda c: z3.BoolVal(len(c.events('endpoint_closed')) == 1) ==
+            attached(c, '_agent')),
+    ]),
+    raises={})
+
+server_conn_cleanup = Spec(
+    PROP, 'connection', 'SSHServerConnection._cleanup', self_class='SSHServerConnection',
+    params=dict(exc='opt[opaque:Exc]'), classes=conn_classes('SSHServerConnection', SERVER_CONN_FIELDS),
+    stubs={'self._agent_listener.close': endpoint_close_stub, 'super()._cleanup': base_cleanup_call},
+    requires=conn_cleanup.requires,
+    ensures=override_post([
+        ('agent-listener-closed-once-iff-present-and-forgotten', lambda c: z3.And(
+            z3.BoolVal(len(c.events('endpoint_closed')) == 1) == attached(c, '_agent_listener'),
+            isn(c.newv('_agent_listener')))),
+    ]),
+    raises={})
+
+
+# ---- (3) no channel registers on a closed connection: add_channel / remove_channel, the only writers of _channels
+# besides the channels' own unregistration ---------------------------------------------------------------
+TWO32 = 1 << 32
+ADDCHAN_FIELDS = {'_transport': 'opt[obj:Transport]', '_channels': 'dict[int,' + CHAN + ']', '_next_recv_chan': 'int',
+                  'ghost_free_slot': 'int'}
+ADDCHAN_CLASSES = {'SSHConnection': ADDCHAN_FIELDS, 'Transport': {}}
+
+
+def chan_table_inv_new(c):
+    return chan_table_inv(Flip(c))
+
+
+def table_wf(c, new=False):
+    """channel numbers are uint32 (add_channel masks them)"""
+    m = c.newv('_channels') if new else c.oldv('_channels')
+    nx = c.new('_next_recv_chan') if new else c.old('_next_recv_chan')
+    k = z3.Int(fresh_name('k'))
+    return z3.And(0 <= nx, nx < TWO32, z3.ForAll([k], z3.Implies(z3.Select(m.dom, k), z3.And(0 <= k, k < TWO32))))
+
+
+def free_slot(c):
+    """fewer than 2**32 channels are open: some number (ghost witness) is free"""
+    g = c.old('ghost_free_slot')
+    return z3.And(0 <= g, g < TWO32, z3.Not(z3.Select(c.oldv('_channels').dom, g)))
+
+
+add_channel = Spec(
+    PROP, 'connection', 'SSHConnection.add_channel', self_class='SSHConnection', params=dict(chan=CHAN),
+    classes=ADDCHAN_CLASSES, returns='int',
+    loops={1: LoopSpec(header='self._next_recv_chan in self._channels',
+                       invariant=lambda c: z3.And(0 <= c.new('_next_recv_chan'), c.new('_next_recv_chan') < TWO32),
+                       # the scan reaches the free number: distance to it, modulo 2**32
+                       variant=lambda c: (c.old('ghost_free_slot') - c.new('_next_recv_chan')) % TWO32)},
+    requires=lambda c: z3.And(chan_table_inv(c), table_wf(c), free_slot(c)),
+    # chan_num (ghost) is DEFINED here: the number add_channel hands to a channel (each channel object is added
+    # once, by its constructor - Spec chan_init below)
+    lemmas=lambda c: [chan_num(c.arg('chan')) == c.result] if c.raised is None else [],
+    modifies=['_channels', '_next_recv_chan'],
+    ensures=[
+        # "no channel stays registered on a closed connection": after _force_close nothing can be added
+        ('refuses-on-a-closed-connection', lambda c: attached(c, '_transport')),
+        ('registers-under-a-fresh-number', lambda c: z3.And(
+            0 <= c.result, c.result < TWO32, z3.Not(z3.Select(c.oldv('_channels').dom, c.result)),
+            c.newv('_channels').dom == z3.Store(c.oldv('_channels').dom, c.result, True),
+            c.newv('_channels').val == z3.Store(c.oldv('_channels').val, c.result, c.arg('chan')))),
+        ('class-inv', lambda c: z3.And(chan_table_inv_new(c), table_wf(c, new=True)))],
+    raises={'ChannelOpenError': lambda c: z3.And(
+        isn(c.oldv('_transport')),
+        c.newv('_channels').dom == c.oldv('_channels').dom, c.newv('_channels').val == c.oldv('_channels').val)})
+
+remove_channel = Spec(
+    PROP, 'connection', 'SSHConnection.remove_channel', self_class='SSHConnection', params=dict(recv_chan='int'),
+    classes=ADDCHAN_CLASSES, modifies=['_channels'],
+    requires=lambda c: z3.And(chan_table_inv(c), table_wf(c)),
+    ensures=[('only-that-number-unregistered', lambda c: z3.And(
+        z3.Select(c.oldv('_channels').dom, c.arg('recv_chan')),
+        c.newv('_channels').dom == z3.Store(c.oldv('_channels').dom, c.arg('recv_chan'), False),
+        c.newv('_channels').val == c.oldv('_channels').val)),
+        ('class-inv', lambda c: z3.And(chan_table_inv_new(c), table_wf(c, new=True)))],
+    raises={'KeyError': lambda c: z3.And(
+        z3.Not(z3.Select(c.oldv('_channels').dom, c.arg('recv_chan'))),
+        c.newv('_channels').dom == c.oldv('_channels').dom)})
+
+
+# ---- SSHChannel.__init__: establishes the channel's class invariants and registers the channel exactly once --
+INIT_CHAN_FIELDS = dict(C9_CHAN_FIELDS, **{
+    '_extra': 'any', '_errors': 'str', '_env': 'any', '_str_env': 'any', '_command': 'any', '_subsystem': 'any',
+    '_request_queue': 'any', '_logger': 'any', 'ghost_registered_as': 'opt[int]'})
+
+
+def add_channel_stub(cx):
+    """conn.add_channel(self) by its contract (Spec add_channel): a number, or ChannelOpenError on a closed
+    connection; the registration is recorded in the channel's ghost field"""
+    n = cx.fresh('int', 'recv_chan')
+    return [Out(ret=n, osets=on_self(cx, ghost_registered_as=n), event=('add_channel', tuple(cx.args))),
+            Out(exc=VExc('ChannelOpenError'), event=('add_channel_refused', tuple(cx.args)))]
+
+
+add_channel_stub.modifies = ('ghost_registered_as',)
+
+
+def set_encoding_stub(cx):
+    """set_encoding(): the decoder exists exactly when an encoding is set (its 8 lines are C08's business)"""
+    enc = cx.args[0]
+    dec = cx.fresh('opt[obj:Decoder]', 'decoder')
+    return [Out(sets={'_encoding': enc, '_decoder': dec},
+                assume=[isn(dec) == z3.Not(cx.ex.truthy(cx.st, enc))])]
+
+
+set_encoding_stub.modifies = ('_encoding', '_decoder')
+
+chan_init = Spec(
+    PROP, 'channel', 'SSHChannel.__init__', self_class='SSHChannel',
+    params=dict(conn='obj:Conn', loop='opaque:Loop', encoding='opt[str]', errors='str', window='int',
+                max_pktsize='int'),
+    classes=dict(C9_CHAN_CLASSES, SSHChannel=INIT_CHAN_FIELDS),
+    stubs={'conn.add_channel': add_channel_stub, 'asyncio.Event': ret('opaque:Event', 'close_event'),
+           'conn.logger.get_child': ret('any', 'logger'), 'self.set_encoding': set_encoding_stub,
+           'self.set_write_buffer_limits': ret('none', 'limits', modifies=('_send_high_water', '_send_low_water'))},
+    requires=lambda c: isn(c.oldv('ghost_registered_as')),
+    ensures=[
+        ('registered-exactly-once-under-the-number-it-remembers', lambda c: z3.And(
+            z3.BoolVal(len(c.events('add_channel')) == 1),
+            *[c.eq(e[1][0], VRef(c.self_ref.addr) if not isinstance(c.self_ref, VRef) else c.self_ref)
+              for e in c.events('add_channel')],
+            z3.Not(isn(c.newv('_recv_chan'))), c.eq(c.newv('_recv_chan'), c.newv('ghost_registered_as')))),
+        ('attached-to-the-connection-it-registered-with', lambda c: z3.And(
+            z3.Not(isn(c.newv('_conn'))), c.eq(c.newv('_conn'), c.argv('conn')))),
+        ('no-waiter-no-session-yet', lambda c: z3.And(isn(c.newv('_open_waiter')), isn(c.newv('_session')),
+                                                      z3.Length(c.new('_request_waiters')) == 0)),
+        ('both-sides-closed-until-the-open-completes', lambda c: z3.And(
+            c.new('_send_state') == CLOSED, c.new('_recv_state') == CLOSED, isn(c.newv('_send_chan')))),
+        ('class-inv', lambda c: z3.And(chan_registry_inv(c, new=True), hs_inv(c, new=True),
+                                       decoder_inv(Flip(c)))),
+    ],
+    # the constructor fails (nothing was registered, the object is dropped) on a closed connection
+    raises={'ChannelOpenError': lambda c: z3.BoolVal(len(c.events('add_channel')) == 0)})
+
+
+# ---- (2) pending operation "read": _block_read and the wait step of read / readuntil / TunTap read ----------
+# Class invariant eof_inv (above, table form) in map form: once EOF is latched, no reader is parked on a pending
+# future.  Writers: eof_received / connection_lost (above), _block_read (here; it is the only function that stores
+# a waiter), whose precondition "EOF not latched" is an obligation at each of its three call sites.
+OFUT = parse_type('opt[' + FUT + ']')
+OFutS = sort_of(OFUT)
+ofut_is_none, ofut_val = OFutS.recognizer(0), OFutS.accessor(1, 0)
+KT9 = 'opt[int]'
+BLOCK_READ_FIELDS = {'_loop': 'opt[opaque:Loop]', '_eof_received': 'bool',
+                     '_read_waiters': 'dict[' + KT9 + ',opt[' + FUT + ']]', 'ghost_done': DONE_T}
+
+
+def eof_inv_map(eof, m, d):
+    k = z3.Const(fresh_name('dt'), sort_of(m.kt))
+    slot = z3.Select(m.val, k)
+    return z3.Implies(eof, z3.ForAll([k], z3.Implies(z3.Select(m.dom, k),
+                                                     z3.Or(ofut_is_none(slot), done_in(d, ofut_val(slot))))))
+
+
+def slot_of(c, new=False):
+    m = c.newv('_read_waiters') if new else c.oldv('_read_waiters')
+    return z3.Select(m.val, to_z3(c.argv('datatype'), m.kt))
+
+
+def read_future_stub(cx):
+    """loop.create_future(): a future nobody has seen yet - pending, not cancelled"""
+    f = cx.fresh(FUT, 'waiter')
+    return [Out(ret=f, assume=[z3.Not(done_in(cx.selff('ghost_done'), f.z)), z3.Not(cancelled_fn(f.z))])]
+
+
+read_future_stub.modifies = ()
+
+
+def await_read_waiter_stub(cx):
+    """`await waiter` inside _block_read(): a cut point.  Obligations: the awaited future is the one stored in
+    _read_waiters[datatype] (where data_received / eof_received / connection_lost look for it) and the class
+    invariant holds when control leaves.  The environment may latch EOF, resolve futures and park/unpark readers of
+    OTHER datatypes, keeping the class invariant (proved on eof_received, connection_lost and here); this reader's
+    slot is its own (readers of one datatype are serialised by the read lock)."""
+    w = cx.args[0]
+    m = cx.selff('_read_waiters')
+    kz = to_z3(cx.st.env['datatype'], m.kt)
+    cx.require('awaited-waiter-is-registered',
+               z3.And(z3.Select(m.dom, kz), z3.Select(m.val, kz) == OFutS.constructor(1)(w.z)))
+    cx.require('class-inv-at-await', eof_inv_map(cx.selff('_eof_received').z, m, cx.selff('ghost_done')))
+    outs = []
+    for exc in (None, VExc('CancelledError')):
+        m2 = cx.fresh(BLOCK_READ_FIELDS['_read_waiters'], 'read_waiters')
+        d2 = cx.fresh(DONE_T, 'done')
+        eof2 = cx.fresh('bool', 'eof')
+        assume = [m2.dom == m.dom, z3.Select(m2.val, kz) == z3.Select(m.val, kz),
+                  eof_inv_map(eof2.z, m2, d2)]
+        if exc is None:
+            assume.append(done_in(d2, w.z))
+        outs.append(Out(sets={'_read_waiters': m2, 'ghost_done': d2, '_eof_received': eof2}, assume=assume, exc=exc,
+                        event=('await', (w,))))
+    return outs
+
+
+await_read_waiter_stub.modifies = ('_read_waiters', 'ghost_done', '_eof_received')
+
+c9_block_read = Spec(
+    PROP, 'stream', 'SSHStreamSession._block_read', self_class='SSHStreamSession',
+    params=dict(datatype=KT9), classes={'SSHStreamSession': BLOCK_READ_FIELDS},
+    stubs={'self._loop.create_future': read_future_stub, 'await waiter': await_read_waiter_stub},
+    requires=lambda c: z3.And(
+        z3.Not(isn(c.oldv('_loop'))),
+        z3.Select(c.oldv('_read_waiters').dom, to_z3(c.argv('datatype'), KT9)),
+        # the callers' obligation (stated at the three call sites below): never park once EOF is latched
+        z3.Not(c.old('_eof_received')),
+        eof_inv_map(c.old('_eof_received'), c.oldv('_read_waiters'), c.oldv('ghost_done'))),
+    ensures=[('returns-only-after-its-waiter-was-resolved', lambda c: z3.And(
+        z3.BoolVal(len(c.events('await')) == 1),
+        *[done_in(c.newv('ghost_done'), e[1][0].z) for e in c.events('await')]))],
+    always=[('waiter-slot-cleared', lambda c: ofut_is_none(slot_of(c, new=True))),
+            ('eof-inv', lambda c: eof_inv_map(c.new('_eof_received'), c.newv('_read_waiters'), c.newv('ghost_done')))],
+    raises={'CancelledError': True})
+
+
+# read / readuntil: the Specs of contracts/c19.py (their loop invariants and environment model, see its ASSUMPTIONS:
+# rely condition at the awaits, lock step) re-run under C09 with the C09 clause at the wait step: the call of
+# _block_read is reached only with EOF not latched (the other preconditions of c9_block_read - loop set, datatype
+# known - are C19's wf()).  C19's data clauses are not repeated here.
+import copy as _copy
+from . import c19 as _c19
+
+
+def park_stub(cx):
+    """await self._block_read(datatype) at a call site: precondition of c9_block_read, then C19's suspension"""
+    cx.require('never-parks-once-eof-is-latched', z3.Not(cx.selff('_eof_received').z))
+    return _c19.await_stub(cx)
+
+
+park_stub.modifies = tuple(_c19.await_stub.modifies)
+
+
+def c9_reader(sp, label):
+    cl = _copy.copy(sp)
+    cl.prop = PROP
+    cl.stubs = dict(sp.stubs, **{'self._block_read': park_stub})
+    cl.loops = dict(sp.loops)
+    cl.cases = [(label, {})]
+    cl.ensures = []
+    cl.always = []
+    cl.raises = {k: True for k in sp.raises}
+    cl.lemmas = None
+    Spec.registry.append(cl)
+    return cl
+
+
+c9_read = c9_reader(_c19.read, 'read')
+c9_readuntil_literal = c9_reader(_c19.readuntil_literal, 'literal-separator')
+c9_readuntil_newline = c9_reader(_c19.readuntil_newline, 'newline')
+
+
+# the third caller of _block_read: the TUN/TAP override of read (packet-preserving; not covered by C19)
+def tuntap_env_stub(extra_req=None):
+    def stub(cx):
+        """a suspension (or the synchronous call-out of _maybe_resume_reading into the channel): the environment
+        may append packets and latch EOF"""
+        if extra_req is not None:
+            cx.require(*extra_req(cx))
+        m = cx.selff('_recv_buf')
+        sets = {'_recv_buf': VMap(m.dom, z3.Const(fresh_name('env_recv_buf'), m.val.sort()), m.kt, m.vt),
+                '_recv_buf_len': cx.fresh('int', 'env_len'), '_eof_received': cx.fresh('bool', 'env_eof')}
+        return [Out(sets=sets, event=('env', ())), Out(exc=VExc('CancelledError'))]
+    stub.modifies = ('_recv_buf', '_recv_buf_len', '_eof_received')
+    return stub
+
+
+c9_tuntap_read = Spec(
+    PROP, 'stream', 'SSHTunTapStreamSession.read', self_class='SSHTunTapStreamSession',
+    params=dict(datatype=KT9, n='int', exact='bool'),
+    classes={'SSHTunTapStreamSession': {'_recv_buf': 'dict[' + KT9 + ',seq[bytes]]', '_recv_buf_len': 'int',
+                                        '_eof_received': 'bool'}},
+    stubs={'self._maybe_resume_reading': noop('resume'),
+           'self._block_read': tuntap_env_stub(lambda cx: ('never-parks-once-eof-is-latched',
+                                                           z3.Not(cx.selff('_eof_received').z)))},
+    loops={1: LoopSpec(header='not self._eof_received',
+                       invariant=lambda c: z3.Select(c.newv('_recv_buf').dom, to_z3(c.argv('datatype'), KT9)),
+                       modifies=['_recv_buf', '_recv_buf_len', '_eof_received'])},
+    requires=lambda c: z3.Select(c.oldv('_recv_buf').dom, to_z3(c.argv('datatype'), KT9)),
+    returns='bytes',
+    ensures=[], raises={'CancelledError': True})
+c9_tuntap_read.alias_map_lists = True
+
+
+# ---- (2) pending operation "SFTP request": SFTPClientHandler._cleanup / _process_packet -----------------------
+REQS_T = 'dict[int,' + FUT + ']'
+SFTP_FIELDS = {'_requests': REQS_T, '_loop': 'opaque:Loop', '_next_pktid': 'int',
+               '_reader': 'opt[obj:Reader]', '_writer': 'opt[obj:Writer]',
+               'ghost_done': DONE_T, 'ghost_base_cleanups': 'int', 'ghost_writer_closed': 'int'}
+SFTP_CLASSES = dict({'SFTPClientHandler': SFTP_FIELDS, 'Reader': {}, 'Writer': {}}, **PACKET_CLASSES)
+
+
+def sftp_registry_inv(c, new=False):
+    """every outstanding request has its own future, pending or cancelled (the _make_request that awaits it may
+    have been cancelled)"""
+    m = c.newv('_requests') if new else c.oldv('_requests')
+    d = c.newv('ghost_done') if new else c.oldv('ghost_done')
+    md = c.ex.deref(c.new_state if new else c.old_state, m)
+    if isinstance(md, VDict):           # a dict literal assigned by the code: `{}` holds trivially
+        return z3.BoolVal(len(md.items) == 0)
+    j, k = z3.Int(fresh_name('j')), z3.Int(fresh_name('k'))
+    return z3.And(
+        z3.ForAll([k], z3.Implies(z3.Select(m.dom, k), pending_or_cancelled(d, z3.Select(m.val, k)))),
+        z3.ForAll([j, k], z3.Implies(z3.And(z3.Select(m.dom, j), z3.Select(m.dom, k), j != k),
+                                     z3.Select(m.val, j) != z3.Select(m.val, k))))
+
+
+def sftp_loop_inv(c):
+    L, i = c.extra['iter'].z, c.extra['i']
+    d = c.newv('ghost_done')
+    return z3.And(distinct_seq(L),
+                  forall_idx(L, lambda f, k: done_in(d, f), hi=i),
+                  forall_idx(L, lambda f, k: pending_or_cancelled(d, f), lo=i),
+                  c.newv('_requests').dom == c.oldv('_requests').dom,
+                  c.newv('_requests').val == c.oldv('_requests').val)
+
+
+def sftp_base_cleanup_stub(cx):
+    """await super()._cleanup(exc): SFTPHandler._cleanup (Spec sftp_base_cleanup below) closes the writer"""
+    return [Out(sets={'ghost_base_cleanups': bump(cx, 'ghost_base_cleanups'), '_reader': VNone, '_writer': VNone},
+                event=('base_cleanup', tuple(cx.args)))]
+
+
+sftp_base_cleanup_stub.modifies = ('ghost_base_cleanups', '_reader', '_writer')
+
+
+def all_requests_failed(c):
+    m0 = c.oldv('_requests')
+    d = c.newv('ghost_done')
+    k = z3.Int(fresh_name('k'))
+    return z3.ForAll([k], z3.Implies(z3.Select(m0.dom, k), done_in(d, z3.Select(m0.val, k))))
+
+
+sftp_cleanup = Spec(
+    PROP, 'sftp', 'SFTPClientHandler._cleanup', self_class='SFTPClientHandler',
+    params=dict(exc='opt[opaque:Exc]'), classes=SFTP_CLASSES,
+    stubs=dict(FUT_STUBS, **{'self._requests.values': values_stub, 'list': list_of_values_stub,
+                             'str': ret('str', 'text'), 'super()._cleanup': sftp_base_cleanup_stub}),
+    loops={1: LoopSpec(header='for waiter in list(self._requests.values())', invariant=sftp_loop_inv,
+                       modifies=['ghost_done'])},
+    requires=lambda c: sftp_registry_inv(c),
+    modifies=['_requests', 'ghost_done', 'ghost_base_cleanups', '_reader', '_writer'],
+    ensures=[
+        ('every-outstanding-request-resolved', all_requests_failed),
+        # "... fails with an error": never a result, never the exception None
+        ('requests-fail-with-an-error', lambda c: z3.And(*[
+            z3.And(z3.BoolVal(e[1][1] == 'exception'), z3.Not(isn(e[1][2]))) for e in c.events('resolve')])),
+        ('request-table-emptied', lambda c: empty_table(c, '_requests')),
+        ('base-cleanup-exactly-once-with-the-same-error', lambda c: z3.And(
+            delta(c, 'ghost_base_cleanups') == 1, z3.BoolVal(len(c.events('base_cleanup')) == 1),
+            *[c.eq(e[1][0], c.argv('exc')) for e in c.events('base_cleanup')])),
+        ('class-inv', lambda c: sftp_registry_inv(c, new=True)),
+    ],
+    raises={})
+
+
+sftp_base_cleanup = Spec(
+    PROP, 'sftp', 'SFTPHandler._cleanup', self_class='SFTPClientHandler',
+    params=dict(exc='opt[opaque:Exc]'), classes=SFTP_CLASSES,
+    stubs={'self._writer.close': counting('ghost_writer_closed', 'writer_closed')},
+    modifies=['_reader', '_writer', 'ghost_writer_closed'],
+    ensures=[('writer-closed-once-iff-open', lambda c: delta(c, 'ghost_writer_closed') == b2i(attached(c, '_writer'))),
+             ('writer-forgotten', lambda c: isn(c.newv('_writer'))),
+             ('reader-loop-stops', lambda c: z3.Implies(attached(c, '_writer'), isn(c.newv('_reader'))))],
+    raises={})
+
+
+def sftp_base_cleanup_stub(cx):         # (replaces the placeholder above: the contract of sftp_base_cleanup)
+    outs = contract_stub(lambda: sftp_base_cleanup)(cx)
+    for o in outs:
+        o.sets['ghost_base_cleanups'] = bump(cx, 'ghost_base_cleanups')
+        o.event = ('base_cleanup', tuple(cx.args))
+    return outs
+
+
+sftp_base_cleanup_stub.modifies = ('ghost_base_cleanups', '_reader', '_writer', 'ghost_writer_closed')
+sftp_base_cleanup_stub.spec_getter = lambda: sftp_base_cleanup
+sftp_cleanup.stubs['super()._cleanup'] = sftp_base_cleanup_stub
+sftp_cleanup.modifies = ['_requests', 'ghost_done', 'ghost_base_cleanups', '_reader', '_writer', 'ghost_writer_closed']
+sftp_cleanup.ensures.append(('writer-closed', lambda c: isn(c.newv('_writer'))))
+
+
+def sftp_cleanup_call(cx):
+    outs = contract_stub(lambda: sftp_cleanup)(cx)
+    for o in outs:
+        o.event = ('cleanup', tuple(cx.args))
+    return outs
+
+
+sftp_cleanup_call.modifies = tuple(sftp_cleanup.modifies)
+sftp_cleanup_call.spec_getter = lambda: sftp_cleanup
+
+
+def only_removed(c, key):
+    m0, m1 = c.oldv('_requests'), c.newv('_requests')
+    return z3.And(m1.dom == z3.Store(m0.dom, key, False), m1.val == m0.val)
+
+
+sftp_process_packet = Spec(
+    PROP, 'sftp', 'SFTPClientHandler._process_packet', self_class='SFTPClientHandler',
+    params=dict(pkttype='int', pktid='int', packet='obj:SSHPacket'), classes=SFTP_CLASSES,
+    stubs=dict(FUT_STUBS, **{'self._cleanup': sftp_cleanup_call, 'SFTPBadMessage': ret('opaque:Exc', 'bad_message')}),
+    requires=lambda c: sftp_registry_inv(c),
+    ensures=[
+        ('answered-request-resolved-and-forgotten', lambda c: z3.Implies(
+            z3.Select(c.oldv('_requests').dom, c.arg('pktid')),
+            z3.And(done_in(c.newv('ghost_done'), z3.Select(c.oldv('_requests').val, c.arg('pktid'))),
+                   only_removed(c, c.arg('pktid')),
+                   only_changed(c, z3.Select(c.oldv('_requests').val, c.arg('pktid'))),
+                   z3.BoolVal(len(c.events('cleanup')) == 0)))),
+        # a response nobody waits for means the two sides are out of step: every request is failed, session closed
+        ('unknown-id-fails-every-request', lambda c: z3.Implies(
+            z3.Not(z3.Select(c.oldv('_requests').dom, c.arg('pktid'))),
+            z3.And(all_requests_failed(c), empty_table(c, '_requests'), isn(c.newv('_writer')),
+                   z3.BoolVal(len(c.events('cleanup')) == 1)))),
+        ('class-inv', lambda c: sftp_registry_inv(c, new=True)),
+    ],
+    raises={})
